@@ -59,10 +59,17 @@ def enc(regex: Any, fv_ids: Optional[Dict[int, int]] = None) -> str:
         if q is None:
             out.append("n")
         else:
-            out.extend(["q", _b(q.non_greedy), str(q.minimum), "x" if q.maximum is None else str(q.maximum)])
+            out.extend(["q", _b(q.non_greedy), _count(q.minimum), "x" if q.maximum is None else _count(q.maximum)])
 
     union(regex.union)
     return ",".join(out)
+
+
+def _count(n: int) -> str:
+    """Decimal text of a repetition count; a count with more digits than ``str`` converts (CPython's guard) is written as 9…9."""
+    if n.bit_length() > 14000:
+        return "9" * 4300
+    return str(n)
 
 
 def dec(wire: str, fvs: Optional[List[Any]] = None) -> Any:
